@@ -66,6 +66,11 @@ pub enum Op {
     Rq { src: String },
     /// `prql_to_tokens`
     Tokens { src: String },
+    /// an editor's buffer: a one-file SourceTree is parsed, its text is replaced *in place*
+    /// (`String::replace_range`, same allocation) by `src`, and parsed again; observes the
+    /// second parse (`prql_to_pl_tree` + `pl_to_prql`). Must equal the same with `before`
+    /// = `src`.
+    EditInPlace { before: String, src: String },
     /// multi-file project, the way `prqlc compile <dir>` does it
     Project {
         files: Vec<(String, String)>,
@@ -80,11 +85,21 @@ pub enum Op {
         /// build the tree with `SourceTree::new` for the first file and `insert` for the rest
         #[serde(default, skip_serializing_if = "std::ops::Not::not")]
         via_insert: bool,
+        /// the tree is a `clone()` of a one-file ancestor plus insertions, and a *sibling*
+        /// (same ancestor, one more file inserted first) is compiled before it — what an
+        /// editor integration that keeps several variants of a project around does
+        #[serde(default, skip_serializing_if = "std::ops::Not::not")]
+        sibling_first: bool,
+        /// file paths are absolute under this prefix and the root is relative (`project`)
+        #[serde(default, skip_serializing_if = "Option::is_none")]
+        abs_prefix: Option<String>,
         main_path: Vec<String>,
         opts: Opts,
     },
     /// set (`Some`) or unset (`None`) PRQL_VERSION_OVERRIDE; only at quiescent points
     SetEnv { value: Option<String> },
+    /// change the process's working directory (a host may); only at quiescent points
+    SetCwd { dir: String },
 }
 
 impl Op {
@@ -97,8 +112,10 @@ impl Op {
             Op::Fmt { .. } => "fmt",
             Op::Rq { .. } => "rq",
             Op::Tokens { .. } => "tokens",
+            Op::EditInPlace { .. } => "edit_in_place",
             Op::Project { .. } => "project",
             Op::SetEnv { .. } => "set_env",
+            Op::SetCwd { .. } => "set_cwd",
         }
     }
     /// True if the observation depends on PRQL_VERSION_OVERRIDE.
@@ -114,6 +131,7 @@ impl Op {
             | Op::StagedSplit { src, .. }
             | Op::Fmt { src }
             | Op::Rq { src }
+            | Op::EditInPlace { src, .. }
             | Op::Tokens { src } => Some(src),
             _ => None,
         }
@@ -126,6 +144,7 @@ impl Op {
             | Op::StagedSplit { src, .. }
             | Op::Fmt { src }
             | Op::Rq { src }
+            | Op::EditInPlace { src, .. }
             | Op::Tokens { src } => Some(src),
             _ => None,
         }
@@ -397,6 +416,23 @@ fn do_op(op: &Op) -> Obs {
             Ok(s) => Obs::ok(s),
             Err(e) => Obs::err(err_json(&e)),
         },
+        Op::EditInPlace { before, src } => {
+            let path = PathBuf::from("Query.prql");
+            let mut tree = prqlc::SourceTree::single(path.clone(), before.clone());
+            let _ = std::panic::catch_unwind(std::panic::AssertUnwindSafe(|| {
+                let _ = prqlc::prql_to_pl_tree(&tree);
+            }));
+            if let Some(text) = tree.sources.get_mut(&path) {
+                text.replace_range(.., src);
+            }
+            match prqlc::prql_to_pl_tree(&tree) {
+                Ok(pl) => match prqlc::pl_to_prql(&pl) {
+                    Ok(s) => Obs::ok(s),
+                    Err(e) => Obs::err(err_json_tree(&e, &tree)),
+                },
+                Err(e) => Obs::err(err_json_tree(&e, &tree)),
+            }
+        }
         Op::Tokens { src } => match prqlc::prql_to_tokens(src) {
             Ok(t) => Obs::ok(format!("{t:?}")),
             Err(e) => Obs::err(err_json(&e)),
@@ -407,6 +443,8 @@ fn do_op(op: &Op) -> Obs {
             via_hashmap,
             dups,
             via_insert,
+            sibling_first,
+            abs_prefix,
             main_path,
             opts,
         } => {
@@ -414,12 +452,40 @@ fn do_op(op: &Op) -> Obs {
                 Ok(o) => o,
                 Err(e) => return Obs::err(format!("OPTS {}", err_json(&e))),
             };
+            let path_of = |i: usize| match abs_prefix {
+                Some(pre) => PathBuf::from(format!("{pre}/project/{}", files[i].0)),
+                None => PathBuf::from(&files[i].0),
+            };
             let ordered = order
                 .iter()
                 .chain(dups.iter())
-                .map(|&i| (PathBuf::from(&files[i].0), files[i].1.clone()));
-            let root = Some(PathBuf::from("/project"));
-            let tree = if *via_insert {
+                .map(|&i| (path_of(i), files[i].1.clone()));
+            let root = Some(match abs_prefix {
+                Some(_) => PathBuf::from("project"),
+                None => PathBuf::from("/project"),
+            });
+            let tree = if *sibling_first {
+                let mut it = ordered;
+                let first: Vec<(PathBuf, String)> = it.by_ref().take(1).collect();
+                let rest: Vec<(PathBuf, String)> = it.collect();
+                let base = prqlc::SourceTree::new(first, root);
+                // the sibling: one more file, inserted before the others
+                let mut sib = base.clone();
+                sib.insert(PathBuf::from("zz_other.prql"), "let q = 1\n".to_string());
+                for (p, c) in &rest {
+                    sib.insert(p.clone(), c.clone());
+                }
+                let mp = main_path.clone();
+                let _ = std::panic::catch_unwind(std::panic::AssertUnwindSafe(|| {
+                    let _ = prqlc::prql_to_pl_tree(&sib)
+                        .and_then(|pl| prqlc::pl_to_rq_tree(pl, &mp, &[prqlc::semantic::NS_DEFAULT_DB.to_string()]));
+                }));
+                let mut t = base.clone();
+                for (p, c) in rest {
+                    t.insert(p, c);
+                }
+                t
+            } else if *via_insert {
                 let mut it = ordered;
                 let first: Vec<(PathBuf, String)> = it.by_ref().take(1).collect();
                 let mut t = prqlc::SourceTree::new(first, root);
@@ -464,6 +530,10 @@ fn do_op(op: &Op) -> Obs {
                     err_json_tree(&e.composed(&tree), &tree)
                 )),
             }
+        }
+        Op::SetCwd { dir } => {
+            let _ = std::env::set_current_dir(dir);
+            Obs::ok(String::new())
         }
         Op::SetEnv { value } => {
             match value {
